@@ -1,11 +1,13 @@
 package main
 
+import "golang.org/x/tools/go/ssa"
+
 func init() {
 	register(&PropSpec{
 		ID: "C14",
 		Explain: "The alignment semantics over all histories is NOT decided (it quantifies over sequences of feeds). Decided are structural necessary conditions of it, on every path of the code: " +
 			"(MARK) stop times and trips are marked past only while unmarked, with the feed's time; (UPD) StopTime.update assigns every field on every path, from the update's stop id, arrival, departure and track, the feed time, and clears MarkedPast; " +
-			"(PART) Trip.update partitions the trip's current list against this update's stop time updates; entries before the first updated stop are only marked past; every aligned entry is refreshed by StopTime.update on every path; the list is trimmed to len(past)+len(updated); the remaining updates are appended at the tail in order; between createPartition and the end of the mark / refresh loops the list is not given another backing array (the partition points into it); in the pairing loop of createPartition the outcome `stop ids differ` leaves the loop; createPartition searches the update's first stop in the whole list by stop id only, past is the prefix before it, aligned pairs point into the journal's own list, new is the tail of the updates. " +
+			"(PART) Trip.update partitions the trip's current list against this update's stop time updates; entries before the first updated stop are only marked past; every aligned entry is refreshed by StopTime.update on every path; the list is trimmed to len(past)+len(updated); the remaining updates are appended at the tail in order; between createPartition and the end of the mark / refresh loops the list is not given another backing array, directly or by a helper called in between (the partition points into it); in the pairing loop of createPartition the outcome `stop ids differ` leaves the loop; createPartition searches the update's first stop in the whole list by stop id only, past is the prefix before it, aligned pairs point into the journal's own list, new is the tail of the updates. " +
 			"These are the places where each clause of the property is implemented; breaking one breaks the behaviour, but their conjunction is not claimed to imply it.",
 		Rules: []Rule{
 			{Name: "ACCT", Doc: "an update is applied unless the trip is assigned and the update carries no vehicle (tested on the vehicle itself); the stop times of an applied update are always processed", MinInstances: 1, Run: func(c *Ctx) {
@@ -27,7 +29,17 @@ func init() {
 			{Name: "SCAN", Doc: "a loop that does something for each element is not left early (no break out of a processing loop)", MinInstances: 1, Run: func(c *Ctx) { runFullScan(c, journalFns(c), "SCAN") }},
 			{Name: "JTR", Doc: "journal trip accounting", MinInstances: 10, Run: runJournalTrips},
 			{Name: "MARK", Doc: "mark once", MinInstances: 1, Run: func(c *Ctx) { markOnce(c, "journal:(*Trip).markPast"); markOnce(c, "journal:(*StopTime).markPast") }},
-			{Name: "G6", Doc: "output order from sorted keys", MinInstances: 1, Run: func(c *Ctx) { runG6(c, c.anchors("journal:BuildJournal")) }},
+			{Name: "G6", Doc: "output order from sorted keys", MinInstances: 1, Run: func(c *Ctx) {
+				var fns []*ssa.Function
+				for _, f := range c.anchors("journal:BuildJournal") {
+					for _, g := range c.regionOf(f) {
+						if fnPkgPath(g) == fnPkgPath(f) {
+							fns = append(fns, g) // the copy-out and its sort may live in helpers
+						}
+					}
+				}
+				runG6(c, fns)
+			}},
 		},
 	})
 }
